@@ -13,11 +13,11 @@ section
 variable (P : Prog) (env : Nat → Nat)
 
 /-- the head loop for fallback programs preserves `InvC`; the head set it returns is complete. -/
-theorem loop_specC {read : Nat → St → Res Fetched}
+theorem loop_specC (hG : P.NoGate) {read : Nat → St → Res Fetched}
     (hR : ReadSpecF P env read) (hRC : ReadSpecC P env read) (j : Nat) (s0 : St)
     (fuel stamp : Nat) (s : St) (v : Nat) (hs : List Nat) (s' : St)
     (hI : InvF P env s) (hC : InvC P env s) (hst : s.stack = j :: s0.stack)
-    (h : executeMaybeIterate P env read j false fuel stamp s = .ok (v, hs, s')) :
+    (h : executeMaybeIterate P env read j fuel stamp s = .ok (v, hs, s')) :
     InvC P env s' ∧ (∀ k ∈ hs, isHead s'.prov k = true) ∧
     (∀ k ∈ s0.stack, Via P env s0.stack j k → k ∈ hs) := by
   cases fuel with
@@ -29,14 +29,14 @@ theorem loop_specC {read : Nat → St → Res Fetched}
     | ok r =>
       obtain ⟨v1, hs1, s1⟩ := r
       rw [hev] at h
-      simp only [Bool.not_false, Bool.true_and] at h
-      have hT : ∀ c ∈ callees env (P.node j).body, TopCalls P env s c := by
+      simp only at h
+      have hT : ∀ c ∈ callees env ρ0 (P.node j).body, TopCalls P env s c := by
         intro c hc t ht
         rw [hst] at ht
         injection ht with ht; subst ht; exact hc
       obtain ⟨hI1, hst1, _, hrel, _, _, hon1⟩ :=
-        evalM_specF P env hR _ s v1 hs1 s1 hI hT hev
-      obtain ⟨hC1, hhd1, hcomp1⟩ := evalM_specC P env hR hRC _ s v1 hs1 s1 hI hC hT hev
+        evalM_specF P env hR _ (noGate_node hG j) s v1 hs1 s1 hI hT hev
+      obtain ⟨hC1, hhd1, hcomp1⟩ := evalM_specC P env hR hRC _ (noGate_node hG j) s v1 hs1 s1 hI hC hT hev
       have hst1' : s1.stack = j :: s0.stack := hst1.trans hst
       have htail : s1.stack.tail = s0.stack := by rw [hst1']; rfl
       have hjr : j ∉ s0.stack := by
@@ -51,9 +51,9 @@ theorem loop_specC {read : Nat → St → Res Fetched}
         | @cons _ c _ hc hn hv' =>
           exact hcomp1 c hc (by rw [hst]; exact hn) k (by rw [hst]; exact hk)
             (by rw [hst]; exact hv')
-      have hmemo : ∀ c ∈ callees env (P.node j).body, Memo s1 c := by
+      have hmemo : ∀ c ∈ callees env ρ0 (P.node j).body, Memo s1 c := by
         intro c hc
-        obtain ⟨w, hw⟩ := EvalRel.answered hrel c hc
+        obtain ⟨w, hw⟩ := EvalRel.answered (ρ := ρ0) (fun _ _ _ => zero_le _) hrel c hc
         exact avail_memo hI1 hw
       have hhd' : ∀ k ∈ hs1.filter (fun k => k != j), isHead s1.prov k = true :=
         fun k hk => hhd1 k (List.mem_filter.mp hk).1
@@ -150,14 +150,14 @@ theorem loop_specC {read : Nat → St → Res Fetched}
           rw [below_iff]
           exact ⟨k, by rw [htail]; exact hk, hhd' k (hout k hk hv)⟩
 
-theorem execute_specC (hNX : NoFixpoint P) : ∀ d, ExecSpecC P env (execute P env d) := by
+theorem execute_specC (hNX : NoFixpoint P) (hG : P.NoGate) : ∀ d, ExecSpecC P env (execute P env d) := by
   intro d
   induction d with
   | zero => intro j s v hs s' _ _ _ _ _ _ h; simp [execute] at h
   | succ d ih =>
     intro j s v hs s' hI hC hj hf hc hT h
     unfold execute at h
-    exact loop_specC P env (fetch_specF P env hNX (execute_specF P env hNX d))
+    exact loop_specC P env hG (fetch_specF P env hNX (execute_specF P env hNX hG d))
       (fetch_specC P env ih) j s loopFuel _ _ v hs s'
       (inv_pushF P env hI hj hf hc hT) (inv_pushC hC hj hf hc) rfl h
 
@@ -165,7 +165,7 @@ theorem execute_specC (hNX : NoFixpoint P) : ∀ d, ExecSpecC P env (execute P e
     closed under callees and a `fallback` node on a cycle holds its fallback value. -/
 structure DbOkC (final : List (Nat × Nat)) : Prop where
   closed : ∀ x w, final.lookup x = some w →
-    ∀ c ∈ callees env (P.node x).body, (final.lookup c).isSome = true
+    ∀ c ∈ callees env ρ0 (P.node x).body, (final.lookup c).isSome = true
   fb : ∀ x w, final.lookup x = some w → Reach P env x x → IsFb P x → w = fallbackValue P x
 
 theorem inv_initC {final : List (Nat × Nat)} (h : DbOkC P env final) (poisoned : List Nat) :
@@ -177,7 +177,7 @@ theorem inv_initC {final : List (Nat × Nat)} (h : DbOkC P env final) (poisoned 
   · intro y e hy; cases hy
 
 /-- completeness of a top-level request of a fallback program. -/
-theorem eval_soundC (hNX : NoFixpoint P) {final : List (Nat × Nat)} (hdb : DbOkF P env final)
+theorem eval_soundC (hNX : NoFixpoint P) (hG : P.NoGate) {final : List (Nat × Nat)} (hdb : DbOkF P env final)
     (hdbC : DbOkC P env final) (poisoned : List Nat) (j v : Nat) (s : St)
     (h : eval P env final poisoned j = .ok (v, s)) : DbOkC P env s.final := by
   unfold eval at h
@@ -191,7 +191,7 @@ theorem eval_soundC (hNX : NoFixpoint P) {final : List (Nat × Nat)} (hdb : DbOk
     have hT : TopCalls P env (St.init final poisoned) j := by
       intro t ht; cases ht
     obtain ⟨hC, _, _⟩ :=
-      fetch_specC P env (execute_specC P env hNX (P.n + 1)) j _ v1 hs1 s1
+      fetch_specC P env (execute_specC P env hNX hG (P.n + 1)) j _ v1 hs1 s1
         (inv_initF P env hdb poisoned) (inv_initC P env hdbC poisoned) hT hf
     exact ⟨hC.finalClosed, hC.finalFb⟩
 
@@ -201,7 +201,8 @@ theorem dbOkC_nil (P : Prog) (env : Nat → Nat) : DbOkC P env [] :=
   ⟨fun _ _ h => (nomatch h), fun _ _ h => (nomatch h)⟩
 
 /-- justified AND complete databases are preserved by requests (successful or panicking). -/
-theorem dbOkFC_gets (P : Prog) (env : Nat → Nat) (hNX : NoFixpoint P) (js : List Nat) :
+theorem dbOkFC_gets (P : Prog) (env : Nat → Nat) (hNX : NoFixpoint P) (hG : P.NoGate)
+    (js : List Nat) :
     ∀ db : Db, DbOkF P env db.final → DbOkC P env db.final →
       DbOkF P env (gets P env db js).final ∧ DbOkC P env (gets P env db js).final := by
   induction js with
@@ -215,7 +216,7 @@ theorem dbOkFC_gets (P : Prog) (env : Nat → Nat) (hNX : NoFixpoint P) (js : Li
     | error e => exact ih _ h hc
     | ok r =>
       obtain ⟨v, s⟩ := r
-      exact ih _ (eval_soundF P env hNX h db.poisoned j v s he).2.1
-        (eval_soundC P env hNX h hc db.poisoned j v s he)
+      exact ih _ (eval_soundF P env hNX hG h db.poisoned j v s he).2.1
+        (eval_soundC P env hNX hG h hc db.poisoned j v s he)
 
 end SalsaVerif.Proofs.Cycle
